@@ -1072,4 +1072,34 @@ theorem lazyCmp_rejects (op rop : V → V → V) (stackV : List V → V) (hd : B
   ⟨rfl, by simp [lazyCmp], by simp [lazyCmp]⟩
 
 
+/-! ## a NESTED lazy stack (known finding, repo frozen) -/
+
+/-- **known finding C09-nestedlazy-td-operand (partial: the nested case is NOT pointwise by key)**: a tensordict that
+holds a NESTED lazy stack, combined by a fused op with a regular tensordict of the same content: without default the
+call raises KeyError (the operand has no entry `('n', '0', 'x')`), and with `default=d` it succeeds with the WRONG
+operands: member 0 of `n.x` is combined with the default instead of the operand's `n.x`, which in turn appears as an
+extra entry combined with the default. -/
+theorem nested_lazy_td_operand_partial (f : V → V → V) (sa s0 s1 oa ox d : V) :
+    binop f (nestedLazyItems sa s0 s1) (.td (nestedDenseItems oa ox)) .none = .error .key ∧
+    ∀ r, binop f (nestedLazyItems sa s0 s1) (.td (nestedDenseItems oa ox)) (.value d) = .ok r →
+      get? r ["n", idxKey 0, "x"] = some (f s0 d) ∧ get? r ["n", "x"] = some (f d ox) ∧ get? r ["a"] = some (f sa oa) := by
+  refine ⟨?_, fun r h => ?_⟩
+  · refine binop_missing_key_raises f _ _ ["n", idxKey 0, "x"] ?_ ?_
+    · simp [nestedLazyItems, keys]
+    · simp [nestedDenseItems, keys, idxKey]
+  · have hna : (keys (nestedLazyItems sa s0 s1)).Nodup := by
+      simp [nestedLazyItems, keys, idxKey]
+    have hnb : (keys (nestedDenseItems oa ox)).Nodup := by
+      simp [nestedDenseItems, keys]
+    have hp := binop_default_pointwise f _ _ r d hna hnb h
+    refine ⟨?_, ?_, ?_⟩
+    · rw [hp]; simp [nestedLazyItems, nestedDenseItems, keys, get?, idxKey]
+    · rw [hp]; simp [nestedLazyItems, nestedDenseItems, keys, get?, idxKey]
+    · rw [hp]; simp [nestedLazyItems, nestedDenseItems, keys, get?, idxKey]
+
+
+/-- non-vacuity: with a default the call does succeed -/
+example : (binop (fun x y : Nat => x + y) (nestedLazyItems 1 2 3) (.td (nestedDenseItems 10 20)) (.value 100)).toOption.isSome = true := by
+  rfl
+
 end TdVerif.Props.C09
